@@ -111,6 +111,7 @@ def build(chk):
     c_evaluate(chk)
     c_drop(chk)
     c_modes(chk)
+    c_interpolate(chk)
     c_derivative(chk)
 
 
@@ -238,6 +239,62 @@ def c_modes(chk):
                     o.attrs["extrapolationTypeLower"].name == lower and o.attrs["extrapolationTypeUpper"].name == upper
                 chk.vc(f"setExtrapolationType.{tag}.spline-extrapolates-iff-FUNCTION.{i}", p.pc, sym.to_sym(bool(ok)), func=fn)
                 chk.vc(f"setExtrapolationType.{tag}.range.{i}", p.pc, And(Eq(o.attrs["_rangeMin"], xs[0]), Eq(o.attrs["_rangeMax"], xs[2])), func=fn)
+
+
+def c_interpolate(chk):
+    """_interpolate with the real _dropBadPoints inlined, 4-row table, every pattern of non-finite rows that leaves at least two rows:
+    the table, the spline AND the reported range are those of the rows that were kept (so a row that is left out is outside the range
+    or replaced by its neighbours' interpolation, never evaluated as nan inside the reported range)."""
+    fn = f"{IQ}._interpolate"
+    xs = [real("t0"), real("t1"), real("t2"), real("t3")]
+
+    def spline_new(it, a, k):
+        o = SymObj("CubicSpline", None, label=it.fresh_name("spline"), attrs={"__d__": 0, "x": a[0], "y": a[1], "extrapolate": k.get("extrapolate"), "axis": k.get("axis")})
+        return o
+    reg = {"CubicSpline.derivative": lambda it, so, a, k: SymObj("CubicSpline", None, label=so.label + "'" * a[0], attrs={"__d__": a[0], "of": so})}
+    ext = {"scipy.interpolate.CubicSpline": spline_new}
+    first = True
+    for K in (1, 2):
+        for modes in (("NONE", "NONE"), ("CONSTANT", "FUNCTION")):
+            for bad in itertools.product((False, True), repeat=4):
+                keep = [i for i, b in enumerate(bad) if not b]
+                if len(keep) < 2:
+                    continue
+                if K == 1:
+                    fx = as_array([sp.nan if b else real(f"y{i}") for i, b in enumerate(bad)])
+                else:
+                    fx = as_array([[real(f"y{i}0"), sp.nan if b else real(f"y{i}1")] for i, b in enumerate(bad)])
+
+                def mk(it, fx=fx, modes=modes, K=K):
+                    for a, b in zip(xs, xs[1:]):
+                        it.assume(Lt(a, b))
+                    o = make_fn(K, modes[0], modes[1])
+                    return o, [as_array(xs), fx.copy()], {}, {"o": o}
+                paths = chk.summarize(MODULE, "InterpolatableFunction._interpolate", mk, registry=reg, externals=ext, record=first)
+                first = False
+                tag = f"K{K}.{modes[0]}-{modes[1]}.bad{''.join('1' if b else '0' for b in bad)}"
+                rets = sel(paths)
+                if not rets or len(rets) != len(paths):
+                    chk.undecided.append(f"_interpolate[{tag}]: a path does not return")
+                for i, p in enumerate(rets):
+                    o = p.state["o"]
+                    pts = list(as_array(o.attrs["_interpolationPoints"]).reshape(-1))
+                    vals = as_array(o.attrs["_interpolationValues"])
+                    spl = o.attrs["_interpolatedFunction"]
+                    table_ok = pts == [xs[j] for j in keep] and vals.shape[0] == len(keep) and \
+                        list(as_array(spl.attrs["x"]).reshape(-1)) == pts and as_array(spl.attrs["y"]).shape == vals.shape and \
+                        all(a is b or a == b for a, b in zip(as_array(spl.attrs["y"]).reshape(-1), vals.reshape(-1))) and \
+                        all(a is b or a == b for r, j in enumerate(keep) for a, b in zip(as_array(vals[r]).reshape(-1), as_array(fx[j]).reshape(-1)))
+                    want = "FUNCTION" in modes
+                    chk.vc(f"_interpolate.{tag}.table-and-spline-from-kept-rows.{i}", p.pc,
+                           sym.to_sym(bool(table_ok and (spl.attrs.get("extrapolate") is want or spl.attrs.get("extrapolate") == want))), func=fn)
+                    chk.vc(f"_interpolate.{tag}.range-is-that-of-kept-rows.{i}", p.pc,
+                           And(Eq(o.attrs["_rangeMin"], xs[keep[0]]), Eq(o.attrs["_rangeMax"], xs[keep[-1]])), func=fn)
+                    d = o.attrs["_interpolatedDerivatives"]
+                    chk.vc(f"_interpolate.{tag}.derivative-splines.{i}", p.pc,
+                           sym.to_sym(bool(len(d) == 2 and all(isinstance(q, SymObj) and q.attrs.get("of") is spl and q.attrs.get("__d__") == k + 1
+                                                               for k, q in enumerate(d)))), func=fn)
+    chk.bounded.append({"what": "_interpolate", "bound": "4-row tables, 1 and 2 components, every pattern of non-finite rows leaving >= 2 rows, two mode pairs", "held": True})
 
 
 def c_derivative(chk):
